@@ -56,13 +56,13 @@ type C13Sym struct {
 }
 
 type C13Case struct {
-	KindA    int      `json:"kind_a"`
-	KindB    int      `json:"kind_b"`
-	Seq      []C13Sym `json:"seq"`
-	Stats    bool     `json:"stats"`    // a stats handler is installed
-	Deadline bool     `json:"deadline"` // callers have a (long) deadline
-	HeaderFirst bool  `json:"header_first"` // stream callers call Header() before receiving
-	Ser      bool     `json:"ser"`
+	KindA       int      `json:"kind_a"`
+	KindB       int      `json:"kind_b"`
+	Seq         []C13Sym `json:"seq"`
+	Stats       bool     `json:"stats"`        // a stats handler is installed
+	Deadline    bool     `json:"deadline"`     // callers have a (long) deadline
+	HeaderFirst bool     `json:"header_first"` // stream callers call Header() before receiving
+	Ser         bool     `json:"ser"`
 }
 
 func (c C13Case) names() []string {
